@@ -244,12 +244,23 @@ func runC38(c *Ctx) {
 			st, ok := x.(*ssa.Store)
 			return ok && isCell(st.Addr, "observed") && strip(st.Val) == cur
 		}, func(x ssa.Instruction) bool { return false })
+		_ = recorded
+		// every path to a return either takes an "equal to observed" edge or passes the recording store
+		eqEdges := map[Edge]bool{}
+		for _, e := range IfEdges(reconcile) {
+			if cnd, t := e.Cond(); eq(e, cnd, t) {
+				eqEdges[e] = true
+			}
+		}
+		unrecorded := reachAvoiding(reconcile.Blocks[0], func(x ssa.Instruction) bool {
+			st, ok := x.(*ssa.Store)
+			return ok && isCell(st.Addr, "observed") && strip(st.Val) == cur
+		}, func(e Edge) bool { return eqEdges[e] })
 		for _, r := range returnsOf(reconcile) {
 			if r.Block() == reconcile.Recover {
 				continue
 			}
-			g, ns := MustCross(r, eq)
-			c.Check("reconcile-on-change", "return-only-if-unchanged-or-recorded@reconcile", r, (g && ns > 0) || recorded.At(r),
+			c.Check("reconcile-on-change", "return-only-if-unchanged-or-recorded@reconcile", r, len(eqEdges) > 0 && !unrecorded[r.Block()],
 				"reconcile returns without recording the fingerprint it just took although it differs from 'observed': when the file later returns to the stale observed content the comparison says 'unchanged' and the final content is never reloaded")
 		}
 		if nSt == 0 || nSch == 0 {
@@ -383,7 +394,7 @@ func runC38(c *Ctx) {
 	// ---- (6) fingerprint
 	{
 		okSum, okStates := false, map[int64]bool{}
-		eachInstr(fp, func(in ssa.Instruction) {
+		eachInstrDeep(fp, 1, func(in ssa.Instruction) {
 			st, ok := in.(*ssa.Store)
 			if !ok {
 				return
